@@ -13,6 +13,9 @@ package gormx
 // extern contracts.
 //@ ghost stepsRun int
 //@ ghost stepsOK bool
+// stepErr: the error returned by the step that failed (steps stop at the first failure); stepPanicked: a step panicked
+//@ ghost stepErr error
+//@ ghost stepPanicked bool
 //
 // The contract of a step (a caller-supplied function value): it may return nil, return an error, or
 // panic with ANY value (including a nil interface value: the module's go directive is 1.19, so
@@ -23,12 +26,12 @@ package gormx
 //@   maypanic
 //@   requires #noearlierfailure stepsOK
 //@   requires #open txCommitted == old(txCommitted) && txRolledBack == old(txRolledBack)
-//@   ensures stepsRun == old(stepsRun) + 1 && (result != nil ==> !stepsOK) && (result == nil ==> stepsOK == old(stepsOK))
-//@   ensures_panic stepsRun == old(stepsRun) + 1 && !stepsOK
-//@   modifies stepsRun, stepsOK
+//@   ensures stepsRun == old(stepsRun) + 1 && (result != nil ==> !stepsOK && stepErr == result) && (result == nil ==> stepsOK == old(stepsOK) && stepErr == old(stepErr)) && stepPanicked == old(stepPanicked)
+//@   ensures_panic stepsRun == old(stepsRun) + 1 && !stepsOK && stepPanicked
+//@   modifies stepsRun, stepsOK, stepErr, stepPanicked
 //
 //@ func Transact
-//@   requires stepsOK
+//@   requires stepsOK && !stepPanicked
 //@   ensures #empty len(fnList) == 0 ==> err == nil && txBegun == old(txBegun) && stepsRun == old(stepsRun) && txCommitted == old(txCommitted) && txRolledBack == old(txRolledBack)
 //@   ensures #begun len(fnList) > 0 ==> txBegun == old(txBegun) + 1
 //@   ensures #atmostonce txCommitted - old(txCommitted) + txRolledBack - old(txRolledBack) <= 1 && txCommitted >= old(txCommitted) && txRolledBack >= old(txRolledBack)
@@ -37,21 +40,22 @@ package gormx
 //@   ensures #rollback !stepsOK ==> txRolledBack == old(txRolledBack) + 1 && txCommitted == old(txCommitted) && err != nil
 //@   ensures #nilmeanscommitted len(fnList) > 0 && err == nil ==> txCommitted == old(txCommitted) + 1
 //@   ensures #beginfailure len(fnList) > 0 && stepsRun == old(stepsRun) && txCommitted == old(txCommitted) && txRolledBack == old(txRolledBack) ==> err != nil
+//@   ensures #steperror !stepsOK && !stepPanicked ==> err == stepErr
 //@   ensures #commiterror txCommitted == old(txCommitted) + 1 ==> err == txCommitErr
 //@   ensures #beginerror len(fnList) > 0 && stepsRun == old(stepsRun) && txCommitted == old(txCommitted) && txRolledBack == old(txRolledBack) ==> err == txBeginErr
-//@   modifies txBegun, txCommitted, txRolledBack, txBeginErr, txCommitErr, stepsRun, stepsOK
+//@   modifies txBegun, txCommitted, txRolledBack, txBeginErr, txCommitErr, stepsRun, stepsOK, stepErr, stepPanicked
 //@   loop 1
 //@     invariant err == nil && stepsOK && stepsRun == old(stepsRun) + idx$1 && txCommitted == old(txCommitted) && txRolledBack == old(txRolledBack) && txBegun == old(txBegun) + 1 && txn != nil
 //
 // Combine: the returned step runs the given steps in order and stops at the first failure (the funcval contract's
 // #noearlierfailure precondition is exactly "no step runs after a failed one"); harness in zz_harness_verif.go.
 //@ func verifCombineRun
-//@   requires stepsOK
+//@   requires stepsOK && !stepPanicked
 //@   maypanic
 //@   ensures #allrun result == nil ==> stepsOK && stepsRun == old(stepsRun) + len(fns)
-//@   ensures #failed result != nil ==> !stepsOK && stepsRun > old(stepsRun) && stepsRun <= old(stepsRun) + len(fns)
+//@   ensures #failed result != nil ==> !stepsOK && stepsRun > old(stepsRun) && stepsRun <= old(stepsRun) + len(fns) && result == stepErr
 //@   ensures_panic !stepsOK
-//@   modifies stepsRun, stepsOK
+//@   modifies stepsRun, stepsOK, stepErr, stepPanicked
 //@ func Combine
 //@   inline
 //@   loop 1
